@@ -313,16 +313,18 @@ class Equation(Basic):
                     else:
                         # TODO treate case of vector test function
                         position = trials.index(i.variable)
-                        i.set_position(position)
 
+                # the conditions kept by the equation are new objects: the ones
+                # given by the user are not modified (they may be used elsewhere)
                 if isinstance(i.boundary, Union):
                     if isinstance(i, EssentialBC):
-                        newbc += [EssentialBC(i.lhs, i.rhs, j, position=i.position,
+                        newbc += [EssentialBC(i.lhs, i.rhs, j, position=position,
                                               index_component=i.index_component)
                                   for j in i.boundary._args]
 
                 else:
-                    newbc += [i]
+                    newbc += [EssentialBC(i.lhs, i.rhs, i.boundary, position=position,
+                                          index_component=i.index_component)]
 
             bc = Tuple(*newbc)
         # ...
